@@ -42,7 +42,7 @@ def evaluate(world, run):
                       "hash_seed": ex["step"].get("hash_seed"), "bp": ex["step"].get("bp")})
 
     # source states seen so far per project, for the "stale" classification: list of toggle sets
-    seen_states = {"p0": [], "p1": []}
+    seen_states = {"p0": [], "p1": [], "ui": []}
     crashed_before = False
     for ex in run["execs"]:
         step = ex["step"]
@@ -64,6 +64,16 @@ def evaluate(world, run):
         code, sig = ex["exit"], ex["signal"]
 
         # ---------------------------------------------------------------- bookkeeping probes
+        if proj == "ui":
+            app = world.ui_app(bp)
+            probe("ui_application_execution")
+            if mode == "generate" and code in (0, 1) and sig is None:
+                # upstream's own expectation is an independent reference; C09/C10 do not say WHICH verdict
+                # is right, so a disagreement is an observation
+                if (code == 0) != (app["expect"] == "accept"):
+                    observe("ui_verdict_differs_from_upstream_expectation:" + app["dir"])
+                else:
+                    probe("ui_verdict_matches_upstream_expectation")
         if fired:
             probe(f"fault_fired_{fired['kind']}_{fault['phase']}")
         if ex["n_errors"] >= 2 and code == 1:
